@@ -273,13 +273,13 @@ def run(prop, tier, seed, t0):
     bins, notes, failed = plan.bins_for(cfgs, ('rel', 'chk') if tier == 'thorough' else ('rel',))
     if failed:
         return plan.fail_build(prop, failed)
-    size = 300 if tier == 'quick' else 10000
+    size = 300 if tier == 'quick' else 60000
     tasks = []
     by_impl = {}
     for label, path in bins:
         by_impl.setdefault(IMPL_OF[label.split('-')[0]], []).append((label, path, None))
     for impl, cb in by_impl.items():
-        nt = 4 if tier == 'quick' else 8
+        nt = 4 if tier == 'quick' else 32
         for i in range(nt):
             tasks.append(('vlib.props.c01', 'task', prop, seed * 1000 + i, max(1, size // nt), cb, {'impl': impl}))
     tasks += c01v.tasks(prop, tier, seed, bins)
